@@ -45,6 +45,10 @@ WRITERS = {
     "assign": [0], "shift_left": [0], "shift_right": [0], "inplace_merge": [0], "merge": [4], "set_union": [4],
     "str_replace": [0],
 }
+CONSTRUCT_FUNCS = {"construct_at", "uninitialized_copy", "uninitialized_move", "uninitialized_fill", "uninitialized_fill_n",
+                   "uninitialized_copy_n", "uninitialized_move_n", "uninitialized_default_construct",
+                   "uninitialized_value_construct", "uninitialized_default_construct_n", "uninitialized_value_construct_n"}
+DESTROY_FUNCS = {"destroy_at", "destroy", "destroy_n"}
 ASSIGN_OPS = {"=", "+=", "-=", "*=", "/=", "%=", "&=", "|=", "^=", "<<=", ">>="}
 
 
@@ -261,7 +265,7 @@ class Builder:
         fr.ctx.locals = merged
         for o in set(v_then) | set(v_else):
             self.versions[o] = max(v_then.get(o, 0), v_else.get(o, 0))
-        out.append(("branch", cond, tp, ep, self.info(fr, s, src=astx.show(c))))
+        out.append(("branch", cond, tp, ep, self.info(fr, s, src=astx.show(c), cond_ast=c)))
         return t_ret and e_ret
 
     def loop(self, s, fr, out):
@@ -398,8 +402,17 @@ class Builder:
             if e["placement"]:
                 tgt = e["placement"][0]
                 where = self.classify_target(tgt, fr)
+                src = None
+                ini = e.get("init")
+                if ini is not None:
+                    for x in astx.walk_expr(ini):
+                        if (x.get("k") == "ref" and x.get("d") in ("param", "local")) or x.get("k") in ("mem", "this"):
+                            r0 = self.root(x, fr)
+                            if r0 != "?":
+                                src = r0
+                                break
                 out.append(("effect", where, self.info(fr, stmt or e, what="placement new", target=astx.show(tgt),
-                                                       token="construct")))
+                                                       token="construct", root=self.root(tgt, fr), source_root=src)))
             else:
                 out.append(("effect", "alloc", self.info(fr, stmt or e, what="new-expression")))
             return
@@ -557,8 +570,11 @@ class Builder:
             self._own_write(fr, out, node, rhs, lhs=lhs, op=op)
             return
         if kind == "param":
+            l0 = astx.strip_casts(lhs)
+            fld = l0["n"] if l0 is not None and l0.get("k") == "mem" else None
             out.append(("effect", "outside", self.info(fr, node, what="write through reference parameter",
-                                                       target=astx.show(lhs))))
+                                                       target=astx.show(lhs), field=fld, root=self.root(lhs, fr),
+                                                       rhs=rhs, token="state" if fld else None)))
             return
         if kind == "deref":
             where = self.classify_target(root[1], fr)
@@ -584,6 +600,10 @@ class Builder:
         elif lhs is None:
             fieldname = node.get("n")
         info["field"] = fieldname
+        info["root"] = fr.ctx.this_name.split(".")[0]
+        info["token"] = "state"
+        if init and rhs is not None:
+            info["init_args"] = len(rhs.get("a", [])) if isinstance(rhs, dict) and "a" in rhs else 1
         if fieldname in fr.ctx.size_fields and rhs is not None and op == "=":
             info["size_update"] = simplify(self.term(rhs, fr))
         if self.oblige_hook and lhs is not None:
@@ -646,19 +666,8 @@ class Builder:
         return out
 
     def _record_for_type(self, ty, fr):
-        db = self.db
-        t = ty.replace("const", " ").replace("&", " ").strip()
-        simple = t.split("<")[0].split("::")[-1].strip()
-        out = list(db.simple_rec.get(simple, []))
-        if not out and fr.func.get("record"):
-            rec = db.record(fr.func["record"])
-            if rec and rec["n"] == simple:
-                out = [rec["q"]]
-            if rec:
-                for al in rec.get("aliases", []):
-                    if al["n"] == simple:
-                        out += db._records_named_in(al["ty"], rec)
-        return out
+        r = self.db.resolve_type(ty, fr.func.get("record"))
+        return [r[0]] if r else []
 
     def call(self, e, fr, out, stmt):
         n, q, recv, kind = astx.callee(e)
@@ -678,10 +687,30 @@ class Builder:
         if n.startswith("~") or e["f"].get("pseudo"):
             where = self.classify_target(recv, fr)
             out.append(("effect", where if where != "local" else "maybe",
-                        self.info(fr, node, what="destructor call", target=astx.show(recv), token="destroy")))
+                        self.info(fr, node, what="destructor call", target=astx.show(recv), token="destroy",
+                                  root=self.root(recv, fr))))
             return
         if n == "unreachable" or n == "__builtin_unreachable":
             out.append(("unreachable", self.info(fr, node)))
+            return
+        if n in CONSTRUCT_FUNCS and e["a"]:
+            di = 2 if n in ("uninitialized_copy", "uninitialized_move", "uninitialized_copy_n", "uninitialized_move_n") and len(e["a"]) > 2 else 0
+            self._token(fr, out, node, "construct", e["a"][di], n, e, src_index=0 if di == 2 else 1)
+            return
+        if n in DESTROY_FUNCS and e["a"]:
+            self._token(fr, out, node, "destroy", e["a"][0], n, e)
+            return
+        if kind == "member" and (e["f"].get("dk") == "field" or self._is_field_slot(e, fr)):
+            # call through a function-pointer data member (vtable slot)
+            so = fr.ctx.obj(recv) if recv is not None else None
+            srec = fr.ctx.record_of(so)[0] if so else None
+            out.append(("effect", "maybe", self.info(fr, node, what="call through function-pointer member", slot=n,
+                                                     slot_args=[self.root(a, fr) for a in e["a"]], call=e,
+                                                     slot_holder=self.root(recv, fr), slot_record=srec)))
+            return
+        lam = [a for a in e["a"] if a is not None and a.get("k") == "lambda"]
+        if lam and kind == "free":
+            self._apply_lambda(lam[0], [a for a in e["a"] if a is not lam[0]], fr, out, node, n)
             return
         cands = self.resolve(e, fr)
         # algorithms that write through an argument: classify by destination
@@ -724,6 +753,114 @@ class Builder:
                 self.bump(fr.ctx.this_name)
             return
         self.inline(cal, e, fr, out, node)
+
+    def _is_field_slot(self, e, fr):
+        f = e["f"]
+        if f.get("dk") or not (f.get("dep") or f.get("unres")):
+            return False
+        recv = f.get("b")
+        o = fr.ctx.obj(recv) if recv is not None else None
+        if o is None:
+            return False
+        rq, _ = fr.ctx.record_of(o)
+        if rq is None:
+            return False
+        for q in self.db.lineage(rq):
+            rec = self.db.record(q)
+            if not rec:
+                continue
+            for fd in rec["fields"]:
+                if fd["n"] != f["n"]:
+                    continue
+                ty = fd["ty"]
+                if "(*)" in ty:
+                    return True
+                base = self.db.strip_type(ty).split("::")[-1]
+                for al in rec.get("aliases", []):
+                    if al["n"] == base and "(*)" in al["ty"]:
+                        return True
+        return False
+
+    def root(self, e, fr):
+        """top-level object an expression designates or points into: 'this', a parameter/local name, or '?'."""
+        e = astx.strip_casts(e)
+        if e is None:
+            return "?"
+        k = e.get("k")
+        if k == "call":
+            n, q, recv, kind = astx.callee(e)
+            if n in ("addressof", "move", "forward", "as_const", "begin", "end", "data", "next", "prev", "launder",
+                     "to_address", "cbegin", "cend") and e["a"] and kind == "free":
+                return self.root(e["a"][0], fr)
+            if kind == "member":
+                if astx.is_this(recv):
+                    return fr.ctx.this_name.split(".")[0]
+                return self.root(recv, fr)
+        if k == "un" and e["op"] in ("&", "*"):
+            return self.root(e["e"], fr)
+        if k == "bin" and e["op"] in ("+", "-"):
+            return self.root(e["l"], fr)
+        if k == "idx":
+            return self.root(e["b"], fr)
+        if k == "ref" and e.get("d") in ("param", "local") and e["n"] not in fr.ctx.param_subst:
+            t = fr.ctx.locals.get(e["n"])
+            if t is not None:
+                po = pos_object(t)
+                if po:
+                    return po.split(".")[0]
+                if mentions_this(t, fr.ctx.this_name):
+                    return fr.ctx.this_name.split(".")[0]
+            if e["n"] in getattr(fr.ctx, "roots", {}):
+                return fr.ctx.roots[e["n"]]
+        o = fr.ctx.obj(e)
+        if o is not None:
+            if o.startswith("local:"):
+                return o
+            if k == "ref" and e.get("d") == "local" and e["n"] not in fr.ctx.param_subst:
+                t = fr.ctx.locals.get(e["n"])
+                if t is not None and mentions_this(t, fr.ctx.this_name):
+                    return fr.ctx.this_name.split(".")[0]
+                return "local:" + e["n"]
+            return o.split(".")[0]
+        if k == "this":
+            return fr.ctx.this_name.split(".")[0]
+        return "?"
+
+    def _token(self, fr, out, node, token, target, fname, call, src_index=1):
+        r = self.root(target, fr)
+        where = "own" if r == fr.ctx.this_name.split(".")[0] else ("local" if r.startswith("local:") else ("outside" if r != "?" else "maybe"))
+        src = None
+        if token == "construct" and len(call["a"]) > src_index:
+            for a in call["a"][src_index:]:
+                if a is call["a"][0] and src_index != 0:
+                    continue
+                r1 = self.root(a, fr)
+                if r1 != "?":
+                    src = r1
+                    break
+        out.append(("effect", where if where != "local" else "maybe",
+                    self.info(fr, node, what="%s by %s" % (token, fname), target=astx.show(target), token=token, root=r,
+                              source_root=src, call=call)))
+
+    def _apply_lambda(self, lam, others, fr, out, node, fname):
+        """a callable is applied to (elements of) the other arguments: its body runs with its parameters bound to them."""
+        sub_ctx = fr.ctx
+        saved_subst = dict(sub_ctx.param_subst)
+        saved_locals = dict(sub_ctx.locals)
+        for i, prm in enumerate(lam.get("params", [])):
+            if i < len(others):
+                o = fr.ctx.obj(others[i])
+                if o is None:
+                    o = self.root(others[i], fr)
+                sub_ctx.param_subst[prm["n"]] = o if o != "?" else ("lambda-arg:" + prm["n"])
+                sub_ctx.locals.pop(prm["n"], None)
+        body = []
+        self.stmt(lam.get("body"), fr, body)
+        sub_ctx.param_subst = saved_subst
+        for k in list(sub_ctx.locals):
+            if k not in saved_locals:
+                del sub_ctx.locals[k]
+        out.append(("inline", "lambda passed to " + str(fname), body, self.info(fr, node, callee="lambda")))
 
     def _has_guards(self, cands):
         for c in cands:
@@ -823,11 +960,18 @@ class Builder:
                         ctx.nttp_map[m.group(1)] = fr.ctx.nttp_map[ta]
                     elif ta.replace("_", "").isalnum():
                         ctx.nttp_map[m.group(1)] = T.var(ta, "st")
+        ctx.roots = {}
         for i, p in enumerate(ps):
             if p.get("pack"):
+                for a in call["a"][i:]:
+                    r0 = self.root(a, fr)
+                    if r0 != "?":
+                        ctx.roots[p["n"]] = r0
+                        break
                 break
             if i < len(call["a"]):
                 a = call["a"][i]
+                ctx.roots[p["n"]] = self.root(a, fr)
                 o = fr.ctx.obj(a)
                 so = T.sort_of_type(p["ty"])
                 a0 = astx.strip_casts(a)
@@ -931,10 +1075,26 @@ def mentions_this(t, this_name):
     if t[0] == "v":
         return ("(" + this_name + ")") in t[1] or t[1].startswith(this_name + ".") or t[1] == this_name
     if t[0] == "p":
-        return True
+        return len(t) < 3 or t[2] == this_name or t[2].startswith(this_name + ".")
     if t[0] == "unk":
         return False
     return any(mentions_this(x, this_name) for x in t[1:] if isinstance(x, tuple))
+
+
+def pos_object(t):
+    """object a position term points into (first ('p', _, obj) found), or None."""
+    if not isinstance(t, tuple):
+        return None
+    if t[0] == "p" and len(t) > 2:
+        return t[2]
+    if t[0] in ("c", "v", "unk"):
+        return None
+    for x in t[1:]:
+        if isinstance(x, tuple):
+            r = pos_object(x)
+            if r:
+                return r
+    return None
 
 
 def versioned(t, versions):
